@@ -341,6 +341,7 @@ def gen_trace(seed: int, tier: str) -> dict:
         seed, fault_rate=common.fault_arm(seed), n_events=n, families=["c06", "slides", "shapes", "media", "charts", "tables", "actions", "package"],
         always=("c06", "shapes", "slides"), ckpt=0.06, reopen=0.05, restart=0.03, observe=0.03, jump=0.0, fork=0.03,
         op_filter=lambda name: name in ADD_OPS and name not in exclude)
+    common.rewritten_between_sessions(seed, events, hows=("hover_links", "bool_words"), rate=0.3)
     if turbo:
         # single held SlideShapes handle per slide for the whole run (turbo's precondition): all shape additions go
         # through actor 0's held handle and never into groups (GroupShapes is a different collection)
